@@ -32,7 +32,11 @@ pub fn expand_macros(input: Grammar, recursion_limit: u16) -> NormResult<Grammar
         })
         .collect();
 
-    let mut expander = MacroExpander::new(macro_defs);
+    // Names the generated `X+` productions must not bind: they share their parameter list
+    // with the grammar parameters.
+    let reserved: HashSet<Atom> = input.parameters.iter().map(|p| p.name.clone()).collect();
+
+    let mut expander = MacroExpander::new(macro_defs, reserved);
     expander.expand(&mut items, recursion_limit)?;
 
     Ok(Grammar { items, ..input })
@@ -42,15 +46,30 @@ struct MacroExpander {
     macro_defs: HashMap<NonterminalString, NonterminalData>,
     expansion_set: HashSet<NonterminalString>,
     expansion_stack: Vec<Symbol>,
+    reserved: HashSet<Atom>,
 }
 
 impl MacroExpander {
-    fn new(macro_defs: HashMap<NonterminalString, NonterminalData>) -> MacroExpander {
+    fn new(
+        macro_defs: HashMap<NonterminalString, NonterminalData>,
+        reserved: HashSet<Atom>,
+    ) -> MacroExpander {
         MacroExpander {
             macro_defs,
             expansion_stack: Vec::new(),
             expansion_set: HashSet::new(),
+            reserved,
         }
+    }
+
+    /// A binding name for generated productions: `base`, lengthened until it differs from
+    /// every grammar parameter.
+    fn binding_name(&self, base: &str) -> Atom {
+        let mut name = Atom::from(base);
+        while self.reserved.contains(&name) {
+            name = Atom::from(format!("{name}_"));
+        }
+        name
     }
 
     fn expand(&mut self, items: &mut Vec<GrammarItem>, recursion_limit: u16) -> NormResult<()> {
@@ -462,8 +481,10 @@ impl MacroExpander {
         repeat: RepeatSymbol,
     ) -> NormResult<GrammarItem> {
         let name = NonterminalString(Atom::from(repeat.canonical_form()));
-        let v = Atom::from("v");
-        let e = Atom::from("e");
+        let v = self.binding_name("v");
+        let e = self.binding_name("e");
+        let push_action = action(&format!("{{ let mut {v} = {v}; {v}.push({e}); {v} }}"));
+        let v_action = action(&v);
 
         let base_symbol_ty = TypeRef::OfSymbol(repeat.symbol.kind.clone());
 
@@ -512,7 +533,7 @@ impl MacroExpander {
                                 )],
                             },
                             condition: None,
-                            action: action("v"),
+                            action: v_action,
                             attributes: vec![],
                         },
                     ],
@@ -566,7 +587,7 @@ impl MacroExpander {
                                 ],
                             },
                             condition: None,
-                            action: action("{ let mut v = v; v.push(e); v }"),
+                            action: push_action,
                             attributes: vec![],
                         },
                     ],
